@@ -40,6 +40,129 @@ func runC07(p *Program, r *Result) {
 	}
 
 	r.Rule("R07.1", "required rejections dominate every accepting return", 16)
+	succ, ptb := checkCanonicalParse(p, r, parse, rs, ivs, dec)
+	rtb := p.TB(rs)
+
+	// ---- R07.2
+	r.Rule("R07.2", "marshal and parse side share one set of constants", 10)
+	checkSites(p, r, recipeSites, "C07")
+	checkConsts(p, r, []ConstSite{
+		{"format.intro", pkgFormat, "intro", "const"},
+		{"format.stanzaPrefix", pkgFormat, "stanzaPrefix", "var"},
+		{"format.footerPrefix", pkgFormat, "footerPrefix", "var"},
+		{"format.b64", pkgFormat, "b64", "var"},
+		{"format.ColumnsPerLine", pkgFormat, "ColumnsPerLine", "const"},
+		{"format.BytesPerLine", pkgFormat, "BytesPerLine", "const"},
+	})
+
+	// ---- R07.3
+	r.Rule("R07.3", "the bufio over-read is handed back in front of the payload, exactly once", 2)
+	{
+		nA, nB := 0, 0
+		for _, ret := range succ {
+			facts := ptb.FactsAt(ret.Block())
+			pay := short(ptb.Term(resultsOf(ret)[1]).String())
+			_, same := hasFactShort(facts, "bufio.NewReader(P1) == P1")
+			_, diff := hasFactShort(facts, "bufio.NewReader(P1) != P1")
+			switch {
+			case same && pay == "bufio.NewReader(P1)":
+				nA++
+				r.OK(parse.String(), "payload:same-reader", r.pos(ret), "input already is the bufio.Reader: returned as is (no duplication of buffered bytes)")
+			case diff && pay == specRecipe(r, "format.Parse.payload"):
+				nB++
+				_, okErr := hasFactShort(facts, "(*bufio.Reader).Peek(bufio.NewReader(P1), (*bufio.Reader).Buffered(bufio.NewReader(P1))).1 == nil")
+				r.Check(okErr, parse.String(), "payload:multireader", r.pos(ret), pay, "the Peek error is not checked")
+			default:
+				r.Bad(parse.String(), "payload#"+itoa(retIndex(parse, ret)), r.pos(ret), "payload reader is "+pay+" under facts ["+short(factStrings(facts))+"]: buffered bytes would be lost or duplicated")
+			}
+		}
+		if nA != 1 || nB != 1 {
+			r.Bad(parse.String(), "payload:cases", "", "expected one return for rr == input and one for the MultiReader hand-back")
+		}
+	}
+
+	// ---- R07.4
+	r.Rule("R07.4", "rejected input yields neither a header nor a payload reader", 10)
+	checkNothingOnError(p, r, parse, nil)
+	// ReadStanza has spilled results
+	for i, ret := range returnsOf(rs) {
+		v := resultsOf(ret)
+		if isNilConst(v[1]) {
+			continue
+		}
+		r.Check(isNilConst(v[0]), rs.String(), "return#"+itoa(i), r.pos(ret), "error return with nil stanza", "a partial stanza is returned together with an error")
+	}
+
+	// ---- R07.5
+	r.Rule("R07.5", "a failed StanzaReader keeps failing", 2)
+	{
+		entry := rs.Blocks[0]
+		ifi, isIf := entry.Instrs[len(entry.Instrs)-1].(*ssa.If)
+		ok := false
+		if isIf {
+			a := rtb.atomOf(Guard{If: ifi, Cond: ifi.Cond, Pol: true})
+			ok = a.Kind == "cmp" && a.Op == "!=" && a.Y.Op == "Nil" && short(a.X.String()) == "Field(Recv.err)"
+		}
+		r.Check(ok, rs.String(), "sticky:entry", "", "if r.err != nil { return nil, r.err } first", "ReadStanza does not start by returning the remembered error")
+		okStore := false
+		for _, a := range AnonFuncs(rs) {
+			for _, fs := range p.fieldStores(pkgFormat+".StanzaReader", "err") {
+				if fs.Fn == a {
+					okStore = true
+				}
+			}
+		}
+		// the closure must be deferred
+		deferred := false
+		for _, c := range callsIn(rs) {
+			if _, isD := c.(*ssa.Defer); isD {
+				deferred = true
+			}
+		}
+		r.Check(okStore && deferred, rs.String(), "sticky:defer", "", "deferred closure stores the returned error in r.err on every exit", "the returned error is not remembered in r.err by a deferred closure")
+	}
+}
+
+// checkBase64Guards is rule R08.1: Go's base64 decoders silently skip CR and
+// LF; every Decode/DecodeString call in the given functions must be dominated
+// by a rejection of both in its input.
+func checkBase64Guards(p *Program, r *Result, fns []*ssa.Function) {
+	for _, fn := range fns {
+		tb := p.TB(fn)
+		for i, c := range callsToAny(fn, "(*encoding/base64.Encoding).DecodeString", "(*encoding/base64.Encoding).Decode") {
+			name := calleeName(c.Common())
+			src := c.Common().Args[1]
+			if strings.HasSuffix(name, ".Decode") {
+				src = c.Common().Args[2]
+			}
+			srcKey := tb.Term(src).Key()
+			facts := tb.FactsAt(c.Block())
+			a, ok := findFact(facts, func(a Atom) bool {
+				if a.Kind != "call" || a.Pol || len(a.Call.Args) != 2 {
+					return false
+				}
+				if a.Call.S != "strings.ContainsAny" && a.Call.S != "bytes.ContainsAny" {
+					return false
+				}
+				set := a.Call.Args[1].S
+				return a.Call.Args[0].Key() == srcKey && strings.Contains(set, `\r`) && strings.Contains(set, `\n`)
+			})
+			key := "base64-newline-guard:" + short(name)
+			if i > 0 {
+				key += "#" + itoa(i+1)
+			}
+			if ok {
+				r.OK(fn.String(), key, r.pos(c), "", guardWitness(p, a))
+			} else {
+				r.Bad(fn.String(), key, r.pos(c), "base64 decoding is not dominated by a rejection of CR and LF in its input; encoding/base64 silently skips them, so several spellings of one line would be accepted")
+			}
+		}
+	}
+}
+
+// checkCanonicalParse is rule R07.1 (shared with C03 R03.7): the rejections
+// that make header parsing canonical dominate every accepting return.
+func checkCanonicalParse(p *Program, r *Result, parse, rs, ivs, dec *ssa.Function) ([]*ssa.Return, *TB) {
 	// ---- Parse
 	ptb := p.TB(parse)
 	var succ []*ssa.Return
@@ -189,119 +312,5 @@ func runC07(p *Program, r *Result) {
 	// ---- DecodeString: CR/LF rejected before decoding (shared with R08.1)
 	checkBase64Guards(p, r, []*ssa.Function{dec})
 
-	// ---- R07.2
-	r.Rule("R07.2", "marshal and parse side share one set of constants", 10)
-	checkSites(p, r, recipeSites, "C07")
-	checkConsts(p, r, []ConstSite{
-		{"format.intro", pkgFormat, "intro", "const"},
-		{"format.stanzaPrefix", pkgFormat, "stanzaPrefix", "var"},
-		{"format.footerPrefix", pkgFormat, "footerPrefix", "var"},
-		{"format.b64", pkgFormat, "b64", "var"},
-		{"format.ColumnsPerLine", pkgFormat, "ColumnsPerLine", "const"},
-		{"format.BytesPerLine", pkgFormat, "BytesPerLine", "const"},
-	})
-
-	// ---- R07.3
-	r.Rule("R07.3", "the bufio over-read is handed back in front of the payload, exactly once", 2)
-	{
-		nA, nB := 0, 0
-		for _, ret := range succ {
-			facts := ptb.FactsAt(ret.Block())
-			pay := short(ptb.Term(resultsOf(ret)[1]).String())
-			_, same := hasFactShort(facts, "bufio.NewReader(P1) == P1")
-			_, diff := hasFactShort(facts, "bufio.NewReader(P1) != P1")
-			switch {
-			case same && pay == "bufio.NewReader(P1)":
-				nA++
-				r.OK(parse.String(), "payload:same-reader", r.pos(ret), "input already is the bufio.Reader: returned as is (no duplication of buffered bytes)")
-			case diff && pay == specRecipe(r, "format.Parse.payload"):
-				nB++
-				_, okErr := hasFactShort(facts, "(*bufio.Reader).Peek(bufio.NewReader(P1), (*bufio.Reader).Buffered(bufio.NewReader(P1))).1 == nil")
-				r.Check(okErr, parse.String(), "payload:multireader", r.pos(ret), pay, "the Peek error is not checked")
-			default:
-				r.Bad(parse.String(), "payload#"+itoa(retIndex(parse, ret)), r.pos(ret), "payload reader is "+pay+" under facts ["+short(factStrings(facts))+"]: buffered bytes would be lost or duplicated")
-			}
-		}
-		if nA != 1 || nB != 1 {
-			r.Bad(parse.String(), "payload:cases", "", "expected one return for rr == input and one for the MultiReader hand-back")
-		}
-	}
-
-	// ---- R07.4
-	r.Rule("R07.4", "rejected input yields neither a header nor a payload reader", 10)
-	checkNothingOnError(p, r, parse, nil)
-	// ReadStanza has spilled results
-	for i, ret := range returnsOf(rs) {
-		v := resultsOf(ret)
-		if isNilConst(v[1]) {
-			continue
-		}
-		r.Check(isNilConst(v[0]), rs.String(), "return#"+itoa(i), r.pos(ret), "error return with nil stanza", "a partial stanza is returned together with an error")
-	}
-
-	// ---- R07.5
-	r.Rule("R07.5", "a failed StanzaReader keeps failing", 2)
-	{
-		entry := rs.Blocks[0]
-		ifi, isIf := entry.Instrs[len(entry.Instrs)-1].(*ssa.If)
-		ok := false
-		if isIf {
-			a := rtb.atomOf(Guard{If: ifi, Cond: ifi.Cond, Pol: true})
-			ok = a.Kind == "cmp" && a.Op == "!=" && a.Y.Op == "Nil" && short(a.X.String()) == "Field(Recv.err)"
-		}
-		r.Check(ok, rs.String(), "sticky:entry", "", "if r.err != nil { return nil, r.err } first", "ReadStanza does not start by returning the remembered error")
-		okStore := false
-		for _, a := range AnonFuncs(rs) {
-			for _, fs := range p.fieldStores(pkgFormat+".StanzaReader", "err") {
-				if fs.Fn == a {
-					okStore = true
-				}
-			}
-		}
-		// the closure must be deferred
-		deferred := false
-		for _, c := range callsIn(rs) {
-			if _, isD := c.(*ssa.Defer); isD {
-				deferred = true
-			}
-		}
-		r.Check(okStore && deferred, rs.String(), "sticky:defer", "", "deferred closure stores the returned error in r.err on every exit", "the returned error is not remembered in r.err by a deferred closure")
-	}
-}
-
-// checkBase64Guards is rule R08.1: Go's base64 decoders silently skip CR and
-// LF; every Decode/DecodeString call in the given functions must be dominated
-// by a rejection of both in its input.
-func checkBase64Guards(p *Program, r *Result, fns []*ssa.Function) {
-	for _, fn := range fns {
-		tb := p.TB(fn)
-		for i, c := range callsToAny(fn, "(*encoding/base64.Encoding).DecodeString", "(*encoding/base64.Encoding).Decode") {
-			name := calleeName(c.Common())
-			src := c.Common().Args[1]
-			if strings.HasSuffix(name, ".Decode") {
-				src = c.Common().Args[2]
-			}
-			srcKey := tb.Term(src).Key()
-			facts := tb.FactsAt(c.Block())
-			a, ok := findFact(facts, func(a Atom) bool {
-				if a.Kind != "call" || a.Pol || len(a.Call.Args) != 2 {
-					return false
-				}
-				if a.Call.S != "strings.ContainsAny" && a.Call.S != "bytes.ContainsAny" {
-					return false
-				}
-				set := a.Call.Args[1].S
-				return a.Call.Args[0].Key() == srcKey && strings.Contains(set, `\r`) && strings.Contains(set, `\n`)
-			})
-			key := "base64-newline-guard:" + short(name)
-			if i > 0 {
-				key += "#" + itoa(i+1)
-			}
-			if ok {
-				r.OK(fn.String(), key, r.pos(c), "", guardWitness(p, a))
-			} else {
-				r.Bad(fn.String(), key, r.pos(c), "base64 decoding is not dominated by a rejection of CR and LF in its input; encoding/base64 silently skips them, so several spellings of one line would be accepted")
-			}
-		}
-	}
+	return succ, ptb
 }
